@@ -307,3 +307,63 @@ Proof.
   destruct (indents_loop_ok fuel d m _ _ (VPtr lb 0) (VInt r) Hs Hnn ltac:(lia) (length (nthl lines i)) O 0 fuel) as [p' Hp']; try lia.
   rewrite Hp'. xstep. cbn [skipn option_map]. reflexivity.
 Qed.
+
+(* ------------------------------------------------------------------ lbuf_eol, lbuf_lnnext *)
+Lemma rowidx_lt lines r i : rowidx lines r = Some i -> (i < length lines)%nat /\ r = Z.of_nat i.
+Proof.
+  unfold rowidx. destruct (Z.leb_spec 0 r); [|discriminate]. destruct (Z.ltb_spec r (Z.of_nat (length lines))); [|discriminate].
+  intro E. injection E as <-. lia.
+Qed.
+(* uc_slen of the line a row index names *)
+Lemma slen_line m lb bln lbs lines i d fuel : lbuf_at m lb bln lbs lines -> lines_small lines -> (maxlen lines < fuel)%nat ->
+  (i < length lines)%nat ->
+  callf cprog fuel (S (S d)) F_uc_slen [VPtr (nth i lbs O) 0] m = Ok (VInt (slen (chop (nthl lines i))), m).
+Proof.
+  intros R Hsm Hf Hi. pose proof (la_str _ _ _ _ _ R i Hi) as Hs. pose proof (nthl_nonul lines i (la_nonul _ _ _ _ _ R)) as Hnn.
+  pose proof (maxlen_ge lines i) as Hml. pose proof (nthl_small lines i Hsm) as Hsmall.
+  change (VPtr (nth i lbs O) 0) with (VPtr (nth i lbs O) (Z.of_nat 0)).
+  rewrite (tr_uc_slen m _ _ O d fuel Hs Hnn) by lia. cbn [skipn]. rewrite uc_slen_chop by exact Hnn. reflexivity.
+Qed.
+Lemma slen_small lines i : lines_small lines -> Forall nonul lines -> 0 <= slen (chop (nthl lines i)) <= 2147483647.
+Proof.
+  intros Hsm Hn. pose proof (chop_length_le _ (nthl_nonul lines i Hn)). pose proof (nthl_small lines i Hsm). unfold slen. lia.
+Qed.
+
+Theorem tr_lbuf_eol m lb bln lbs lines r d fuel : lbuf_at m lb bln lbs lines -> lines_small lines ->
+  (maxlen lines < fuel)%nat ->
+  callf cprog fuel (S (S (S d))) F_lbuf_eol [VPtr lb 0; VInt r] m = Ok (VInt (lbuf_eol (map chop lines) r), m).
+Proof.
+  intros R Hsm Hf. enter F_lbuf_eol cf_lbuf_eol. xstep.
+  rewrite (tr_lbuf_get m lb bln lbs lines r (S d) fuel R Hsm). xstep.
+  unfold lbuf_eol. rewrite getl_rowidx. unfold line_ptr. destruct (rowidx lines r) as [i|] eqn:Ei; xstep; [|reflexivity].
+  destruct (rowidx_lt _ _ _ Ei) as [Hi _].
+  rewrite (tr_lbuf_get m lb bln lbs lines r (S d) fuel R Hsm). unfold line_ptr. rewrite Ei. xstep.
+  rewrite (slen_line m lb bln lbs lines i d fuel R Hsm Hf Hi). xstep. cbn [option_map].
+  pose proof (slen_small lines i Hsm (la_nonul _ _ _ _ _ R)) as Hl.
+  destruct (Z.eqb_spec (slen (chop (nthl lines i))) 0); xstep; [reflexivity|].
+  rewrite chk_I32 by lia. reflexivity.
+Qed.
+
+Theorem tr_lbuf_lnnext m lb bln lbs lines br bo r o dir d fuel : lbuf_at m lb bln lbs lines -> lines_small lines ->
+  (maxlen lines < fuel)%nat -> cell_at m br r -> cell_at m bo o -> i32 r -> i32 o -> i32 (o + dir) ->
+  callf cprog fuel (S (S (S d))) F_lbuf_lnnext [VPtr lb 0; VInt dir; VPtr br 0; VPtr bo 0] m
+  = Ok (match lbuf_lnnext (map chop lines) dir r o with
+        | Some o' => (VInt 0, upd m bo [VInt o'])
+        | None => (VInt 1, m)
+        end).
+Proof.
+  intros R Hsm Hf Hr Ho Ir Io Iod. enter F_lbuf_lnnext cf_lbuf_lnnext. xstep.
+  rewrite (load_cell m bo o Ho). xstep. rewrite wrap_I32_id by exact Io. rewrite chk_I32 by exact Iod. xstep.
+  unfold lbuf_lnnext. rewrite getl_rowidx.
+  destruct (Z.ltb_spec (o + dir) 0) as [L|L]; xstep.
+  { destruct (rowidx lines r); reflexivity. }
+  rewrite (load_cell m br r Hr). xstep. rewrite wrap_I32_id by exact Ir.
+  rewrite (tr_lbuf_get m lb bln lbs lines r (S d) fuel R Hsm). unfold line_ptr.
+  destruct (rowidx lines r) as [i|] eqn:Ei; xstep; [|reflexivity].
+  destruct (rowidx_lt _ _ _ Ei) as [Hi _].
+  rewrite (load_cell m br r Hr). xstep. rewrite wrap_I32_id by exact Ir.
+  rewrite (tr_lbuf_get m lb bln lbs lines r (S d) fuel R Hsm). unfold line_ptr. rewrite Ei. xstep.
+  rewrite (slen_line m lb bln lbs lines i d fuel R Hsm Hf Hi). xstep. cbn [option_map orb].
+  rewrite Z.geb_leb. destruct (Z.leb_spec (slen (chop (nthl lines i))) (o + dir)); xstep; [reflexivity|].
+  rewrite wrap_I32_id by exact Iod. rewrite (store_cell m bo o _ Ho). xstep. reflexivity.
+Qed.
